@@ -23,43 +23,73 @@ From PL.C18 Require Import ModelTermEq ProofsWalk ProofsEq GenCfg.
 Import ListNotations.
 Open Scope string_scope.
 
-Theorem C18_refl : forall R a, wf a = true -> eq_m R a a = true.
-Proof. exact eq_m_refl. Qed.
+(* `==` of the tree under test: GenCfg.typed_atoms says whether Var.__eq__ /
+   Constant.__eq__ are the pinned string comparisons (false) or the repaired
+   typed comparisons of fixes/C18-constant-var-eq.patch (true: every guard that
+   only concerns Var/Constant disappears); GenCfg.not_hash_ignores_functor says
+   whether Not.__hash__ is repaired.                                          *)
+Definition eq_cur := eq_cfg typed_atoms.
+
+Theorem C18_refl : forall R a, wf a = true -> eq_cur R a a = true.
+Proof. exact (eq_cfg_refl typed_atoms). Qed.
 Print Assumptions C18_refl.
 
 Theorem C18_sym : forall R a b,
-  wf a = true -> wf b = true -> sym_guard a b = true -> eq_m R a b = eq_m R b a.
-Proof. exact eq_m_sym. Qed.
+  wf a = true -> wf b = true -> typed_atoms || sym_guard a b = true -> eq_cur R a b = eq_cur R b a.
+Proof. exact (eq_cfg_sym typed_atoms). Qed.
 Print Assumptions C18_sym.
 
 Theorem C18_trans : forall R a b c,
-  wf a = true -> wf b = true -> wf c = true -> trans_guard a b c = true ->
-  eq_m R a b = true -> eq_m R b c = true -> eq_m R a c = true.
-Proof. exact eq_m_trans. Qed.
+  wf a = true -> wf b = true -> wf c = true -> typed_atoms || trans_guard a b c = true ->
+  eq_cur R a b = true -> eq_cur R b c = true -> eq_cur R a c = true.
+Proof. exact (eq_cfg_trans typed_atoms). Qed.
 Print Assumptions C18_trans.
 
 (* equal objects hand equal keys to hash() (hence have equal hashes: python's
    hash of a tuple / str / int / float is a function of the value) *)
 Theorem C18_hash : forall R a b,
   R_atoms R -> wf a = true -> wf b = true ->
-  hash_guard not_hash_ignores_functor a b = true ->
-  eq_m R a b = true -> hk not_hash_ignores_functor a = hk not_hash_ignores_functor b.
-Proof. exact (fun R => eq_m_hash R not_hash_ignores_functor). Qed.
+  hash_guard_cfg typed_atoms not_hash_ignores_functor a b = true ->
+  eq_cur R a b = true -> hk not_hash_ignores_functor a = hk not_hash_ignores_functor b.
+Proof. exact (eq_cfg_hash typed_atoms not_hash_ignores_functor). Qed.
 Print Assumptions C18_hash.
-
-(* the same for either variant of Not.__hash__ *)
-Theorem C18_hash_any_cfg : forall nh R a b,
-  R_atoms R -> wf a = true -> wf b = true -> hash_guard nh a b = true ->
-  eq_m R a b = true -> hk nh a = hk nh b.
-Proof. exact (fun nh R => eq_m_hash R nh). Qed.
-Print Assumptions C18_hash_any_cfg.
 
 (* two ground terms compare equal exactly when unify_value treats them as identical *)
 Theorem C18_ground_eq_iff_unify : forall R a b,
   R_atoms R -> wf_arg a = true -> wf_arg b = true -> ground a = true -> ground b = true ->
-  unify_guard a b = true -> eq_m R a b = unify_ident a b.
-Proof. exact eq_m_unify. Qed.
+  unify_guard_cfg typed_atoms a b = true -> eq_cur R a b = unify_ident a b.
+Proof. exact (eq_cfg_unify typed_atoms). Qed.
 Print Assumptions C18_ground_eq_iff_unify.
+
+(* the same five statements for every combination of the two repairs *)
+Theorem C18_all_cfg : forall ta nh R,
+  (forall a, wf a = true -> eq_cfg ta R a a = true) /\
+  (forall a b, wf a = true -> wf b = true -> ta || sym_guard a b = true -> eq_cfg ta R a b = eq_cfg ta R b a) /\
+  (forall a b c, wf a = true -> wf b = true -> wf c = true -> ta || trans_guard a b c = true ->
+                 eq_cfg ta R a b = true -> eq_cfg ta R b c = true -> eq_cfg ta R a c = true) /\
+  (R_atoms R -> forall a b, wf a = true -> wf b = true -> hash_guard_cfg ta nh a b = true ->
+                 eq_cfg ta R a b = true -> hk nh a = hk nh b) /\
+  (R_atoms R -> forall a b, wf_arg a = true -> wf_arg b = true -> ground a = true -> ground b = true ->
+                 unify_guard_cfg ta a b = true -> eq_cfg ta R a b = unify_ident a b).
+Proof.
+  exact (fun ta nh R =>
+    conj (eq_cfg_refl ta R) (conj (eq_cfg_sym ta R) (conj (eq_cfg_trans ta R)
+      (conj (fun HR a b => eq_cfg_hash ta nh R a b HR)
+            (fun HR a b => eq_cfg_unify ta R a b HR))))).
+Qed.
+Print Assumptions C18_all_cfg.
+
+(* with both repairs == is an unguarded equivalence and equal => same hash key *)
+Theorem C18_repaired_unguarded :
+  (forall a, wf a = true -> eq_typed a a = true) /\
+  (forall a b, eq_typed a b = eq_typed b a) /\
+  (forall a b c, eq_typed a b = true -> eq_typed b c = true -> eq_typed a c = true) /\
+  (forall a b, wf a = true -> wf b = true -> eq_typed a b = true -> hk true a = hk true b).
+Proof.
+  exact (conj eq_typed_refl (conj eq_typed_sym (conj eq_typed_trans
+           (fun a b Wa Wb => eq_typed_hash true a b Wa Wb eq_refl)))).
+Qed.
+Print Assumptions C18_repaired_unguarded.
 
 (* == restricted to objects that are not Var/Constant is the queue walk, which
    is an equivalence without any guard *)
@@ -70,7 +100,7 @@ Theorem C18_walk_equivalence :
 Proof. exact (conj walk_refl (conj walk_sym walk_trans)). Qed.
 Print Assumptions C18_walk_equivalence.
 
-Theorem C18_repr_atoms : R_atoms repr_m.
+Theorem C18_repr_atoms : forall ta, R_atoms (repr_m ta).
 Proof. exact repr_m_atoms. Qed.
 Print Assumptions C18_repr_atoms.
 
@@ -94,13 +124,13 @@ Example C18_ex_guards :
   hash_guard false (PNode CVar (VStr "X") []) (PNode CConst (VStr "X") []) = true.
 Proof. vm_compute. repeat split. Qed.
 Example C18_ex_eq :
-  eq_m repr_m cl_ cl_ = true /\ eq_m repr_m ad_ ad_ = true /\ eq_m repr_m cl_ ad_ = false /\
-  eq_m repr_m (PNode CVar (VStr "X") []) (PNode CConst (VStr "X") []) = true /\
+  eq_m (repr_m false) cl_ cl_ = true /\ eq_m (repr_m false) ad_ ad_ = true /\ eq_m (repr_m false) cl_ ad_ = false /\
+  eq_m (repr_m false) (PNode CVar (VStr "X") []) (PNode CConst (VStr "X") []) = true /\
   hk false (PNode CVar (VStr "X") []) = hk false (PNode CConst (VStr "X") []).
 Proof. vm_compute. repeat split. Qed.
 Example C18_ex_repr :
-  repr_m cl_ = "f(X,3) :- \+a, (b; [a, b])" /\
-  repr_m (f_ [PNode CNot (VStr "\+") [a_]; PInt (-2); PNone; PInt 0]) = "f(\+(a),X2,_,A1)".
+  repr_m false cl_ = "f(X,3) :- \+a, (b; [a, b])" /\
+  repr_m false (f_ [PNode CNot (VStr "\+") [a_]; PInt (-2); PNone; PInt 0]) = "f(\+(a),X2,_,A1)".
 Proof. vm_compute. split; reflexivity. Qed.
 Example C18_ex_unify :
   let s := f_ [a_; lst [PNode CConst (VInt 1) []; b_]] in
